@@ -49,6 +49,9 @@ CLAIMED = {
     "C18": ("concurrent channel creation and channel-over-channel transfer programs under the deterministic scheduler (generated schedules, focused exhaustive single preemption); token-routing and id oracle; table-size comparison after N and 2N cycles on a real worker",
             "Generated programs create channels concurrently on both sides of an in-process gateway pair, pass them over channels (bare and nested in list/tuple/dict), exchange tokens both ways and close or drop them; ids must be distinct per side and disjoint between sides, every token must arrive on its own channel, transferred channels keep their id, and all tables must be empty once everything settled. On a real popen worker the table sizes after N and after 2N cycles are compared (growth is the claim).",
             "Sampling of schedules; focused single-preemption enumeration strided in quick. History lengths 200 (quick) / 3000 (thorough) cycles.", "3/C18"),
+    "C05": ("generated groups of real workers (topologies x execmodels x remote activities x injected signals x timeouts) and generated failing makegateway calls; wall-clock bound and /proc process census as oracle",
+            "Generated real groups (popen, python=, socket//installvia, via; thread / main_thread_only / gevent) whose members are idle, blocked, busy, sleeping, interrupt-proof, stopped, killed or multi-threaded are terminated with a generated timeout; the oracle measures the return time against 6*timeout+3 s, requires an empty group and uses a /proc census to require that every recorded worker and every process started by the case is gone; failing makegateway calls (taken ids, bad specs) must leave nothing behind.",
+            "Real processes: the OS schedule is not owned; the time bound detects loss of the bound, not drift. Bounded concurrency (6 shards).", "3/C05"),
 }
 
 NOT_APPLICABLE = {}
